@@ -239,3 +239,181 @@ theorem walkMut_keeps (f : Nat) (ds : DblSem) (rd : Nat → Cell) (lf : LeafS) (
                 exact ⟨((k1.trans k2).trans k3).trans k4, cb⟩
 
 end Nstd.Variant.Deep
+
+namespace Nstd.Variant.Deep
+open Nstd.Variant
+
+theorem handles_ptr_zero (vars : Nat → Cell) (b w : Nat) (hw : w < nslots) (hz : handles vars b = 0) : cellCnt (vars w) b = 0 := by
+  cases hv : vars w with
+  | null => rfl
+  | inl y => rfl
+  | ptr t =>
+    by_cases e : t = b
+    · subst e; exact absurd hv (not_var_of_handles_zero vars t w hw hz)
+    · simp [cellCnt_ptr, e]
+
+/-- the nested mutable walk refines the nested update of the value -/
+theorem walk_step (ds : DblSem) (rd : Nat → Cell) {vars : Nat → Cell} (lf : LeafS) (hsup : LeafSupS lf)
+    (hsrc : ∀ w ∈ lf.vars, rd w = vars w ∧ w < nslots) :
+    ∀ (p : List Step) (h : Heap) (e : Nat → Nat) (g : Nat → Val) (c : Cell), Held h vars e g c → ∀ y,
+      updPath p ((lf.eval (fun w => absCell g (vars w))).apply ds) (absCell g c) = some y →
+      ∀ f, liveCount h + p.length + 1 < f →
+      ∃ h' c' g', walkMut f ds rd h c p lf = some (h', c') ∧ CellStep h vars e g c y (p.length + 2) h' c' g' := by
+  intro p
+  induction p with
+  | nil =>
+    intro h e g c hd y hy f hf
+    simp only [updPath] at hy
+    obtain ⟨h', c', g', r, st⟩ := leaf_step ds rd hd lf hsup hsrc y hy f (by simpa using hf)
+    exact ⟨h', c', g', by simp only [walkMut]; exact r, st⟩
+  | cons st p ih =>
+    intro h e g c hd y hy f hf
+    have i := hd.inv
+    obtain ⟨xi, yi, hgx, hux, hyv⟩ := updPath_cons_decomp hy
+    obtain ⟨hty, _⟩ := updPath_cons hy
+    -- the accessor on this level
+    obtain ⟨h1, b, g1, r1, a⟩ := dinv_access ds hd st.kind (step_isKind st) f (by simp at hf; omega)
+    obtain ⟨blk, hb, href⟩ := a.blk
+    have i1 := a.inv
+    have hb1 := bounded_of_dinv i1
+    have hx1 : g1 b = absCell g c := by rw [a.val]; exact coerce_same ds _ _ (step_isKind st) hty
+    have hcons1 := i1.cons b blk hb
+    -- the element cell
+    have hgc := getCell_abs g1 blk.pay st
+    rw [← hcons1, hx1, hgx] at hgc
+    cases hci : blk.pay.getCell st with
+    | none => rw [hci] at hgc; cases hgc
+    | some ci =>
+      rw [hci] at hgc
+      have hxi : absCell g1 ci = xi := (Option.some.inj hgc).symm
+      have hcim := mem_cells_of_getCell _ _ _ hci
+      have hold_b : cntCells blk.pay.cells b = 0 := by have := cnt_le_stored h1 hb1 b blk hb b; have := a.sz; omega
+      have hci_b : cellCnt ci b = 0 := by have := cellCnt_le_of_mem _ ci b hcim; omega
+      -- take the element out of its slot
+      have hcs := fun x => cnt_setCell blk.pay st .null ci x hci
+      have hnew_b : cntCells (blk.pay.setCell st .null).cells b = 0 := by have := hcs b; simp at this; omega
+      have i1' := dinv_setPay i1 b blk hb a.hz a.sz (blk.pay.setCell st .null)
+        (by
+          intro d hdm
+          rcases mem_setCell _ _ _ _ hdm with hdm | hdm
+          · exact stored_cells_ok i1 b blk hb d hdm
+          · subst hdm; exact ⟨(by intro z hz; cases hz), (by intro t ht; cases ht)⟩)
+        (by intro x; have := hcs x; simp at this; omega) hnew_b
+      let h1' := setPay h1 b (blk.pay.setCell st .null)
+      let g1' := upd g1 b (absPay g1 (blk.pay.setCell st .null))
+      let e1 : Nat → Nat := fun x => e x - cellCnt c x + cellCnt (.ptr b) x
+      have i1'' : DInv h1' vars (fun x => e1 x + cellCnt ci x) g1' :=
+        i1'.congr (by intro x; have := hcs x; simp at this; show e1 x + _ - _ = _; omega)
+      have hd' : Held h1' vars (fun x => e1 x + cellCnt ci x) g1' ci :=
+        ⟨i1'', fun x => Nat.le_add_left _ _, (stored_cells_ok i1 b blk hb ci hcim).1⟩
+      have hxi' : absCell g1' ci = xi := by
+        rw [← hxi]; apply absCell_congr; intro t ht
+        have : t ≠ b := by intro et; subst et; rw [ht] at hci_b; simp [cellCnt_ptr] at hci_b
+        exact upd_other _ _ _ _ this
+      -- the sources evaluate to the same values
+      have hvars : ∀ w, w < nslots → absCell g1' (vars w) = absCell g (vars w) := by
+        intro w hw
+        apply absCell_congr; intro t ht
+        obtain ⟨k0, hk0⟩ := i.live w t ht
+        have : t ≠ b := by
+          intro et; subst et
+          exact not_var_of_handles_zero vars t w hw a.hz ht
+        show upd g1 b _ t = g t
+        rw [upd_other _ _ _ _ this]; exact a.frame t (i.lt_next t k0 hk0)
+      have hev : lf.eval (fun w => absCell g1' (vars w)) = lf.eval (fun w => absCell g (vars w)) :=
+        LeafS.eval_congr lf (fun w hw => hvars w (hsrc w hw).2)
+      have hl1' : liveCount h1' = liveCount h1 := liveCount_setPay _ _ _
+      obtain ⟨h2, ci', g2, r2, st2⟩ := ih h1' _ g1' ci hd' yi (by rw [hev, hxi']; exact hux) f
+        (by rw [hl1']; have := a.live; simp at hf; omega)
+      -- the parent block is untouched by the nested call
+      have hb1' : h1'.heap b = some { blk with pay := blk.pay.setCell st .null } := setPay_heap_same h1 b blk _ hb
+      have hs1' : stored h1'.heap h1'.next b = 0 := stored_setPay_self h1 hb1 b blk hb _ a.sz hnew_b
+      have hbn1' : b < h1'.next := bounded_of_dinv i1'' b _ hb1'
+      obtain ⟨kp, hci'_b⟩ := walkMut_keeps f ds rd lf hsup p h1' ci h2 ci' b r2 (bounded_of_dinv i1'') hbn1' hci_b
+        (by intro w hw; rw [(hsrc w hw).1]; exact handles_ptr_zero vars b w (hsrc w hw).2 a.hz) hs1'
+      have hb2 : h2.heap b = some { blk with pay := blk.pay.setCell st .null } := by rw [kp.same]; exact hb1'
+      have i2 := st2.inv
+      -- store the element back
+      have hget : (blk.pay.setCell st .null).getCell st = some .null := getCell_setCell _ _ _ _ hci
+      have hcs2 := fun x => cnt_setCell (blk.pay.setCell st .null) st ci' .null x hget
+      have i3 := dinv_setPay i2 b _ hb2 a.hz kp.unst ((blk.pay.setCell st .null).setCell st ci')
+        (by
+          intro d hdm
+          rcases mem_setCell _ _ _ _ hdm with hdm | hdm
+          · exact stored_cells_ok i2 b _ hb2 d hdm
+          · subst hdm
+            refine ⟨st2.ok, ?_⟩
+            intro t ht
+            exact live_of_pending i2 t (by show 1 ≤ e1 t + cellCnt ci t - cellCnt ci t + cellCnt d t; rw [ht]; simp [cellCnt_ptr]))
+        (by intro x; have := hcs2 x; simp at this
+            show cntCells ((blk.pay.setCell st .null).setCell st ci').cells x ≤
+              e1 x + cellCnt ci x - cellCnt ci x + cellCnt ci' x + cntCells (blk.pay.setCell st .null).cells x
+            omega)
+        (by have := hcs2 b; simp at this; omega)
+      refine ⟨setPay h2 b ((blk.pay.setCell st .null).setCell st ci'), .ptr b,
+        upd g2 b (absPay g2 ((blk.pay.setCell st .null).setCell st ci')), ?_, i3.congr ?_, ?_, (by intro z hz; cases hz), ?_, ?_, ?_, ?_⟩
+      · simp only [walkMut, r1, hb, hci]
+        show (match walkMut f ds rd h1' ci p lf with
+          | some (s2, ci') => (match s2.heap b with
+            | some blk2 => some (setPay s2 b (blk2.pay.setCell st ci'), Cell.ptr b)
+            | none => none)
+          | none => none) = _
+        rw [r2]; simp only [hb2]
+      · intro x
+        have := hcs2 x; simp at this
+        show e1 x + cellCnt ci x - cellCnt ci x + cellCnt ci' x + cntCells (blk.pay.setCell st .null).cells x
+          - cntCells ((blk.pay.setCell st .null).setCell st ci').cells x = e1 x
+        omega
+      · -- the value
+        simp only [absCell, upd_same]
+        have hcons2 := i2.cons b _ hb2
+        simp only at hcons2
+        have hfr : g2 b = g1' b := by
+          apply st2.frame b (by rw [hb1']; simp) (Or.inr ?_)
+          show 1 + cellCnt ci b ≤ e1 b + cellCnt ci b
+          have hc1 := i1.cnt b blk hb
+          rw [a.hz, a.sz, href] at hc1
+          show 1 + cellCnt ci b ≤ e b - cellCnt c b + cellCnt (.ptr b) b + cellCnt ci b
+          omega
+        rw [absPay_setCell, ← hcons2, hfr]
+        show setSlot (upd g1 b (absPay g1 (blk.pay.setCell st .null)) b) st (absCell g2 ci') = y
+        rw [upd_same, absPay_setCell, ← hcons1, hx1, st2.val, setSlot_setSlot, hyv]
+      · -- frame
+        intro x hx hprot
+        have hxl : x < h.next := lt_next_of_ne i x hx
+        have hc1 := i1.cnt b blk hb
+        rw [a.hz, a.sz, href] at hc1
+        have hxb : x ≠ b := by
+          intro exb; subst exb
+          have := hd.pend x
+          simp only [cellCnt_ptr, if_true] at hc1
+          rcases hprot with hp | hp
+          · have := a.hz; omega
+          · omega
+        rw [upd_other _ _ _ _ hxb]
+        have hlive1' : h1'.heap x ≠ none := by
+          intro hdead
+          have h0 := i1''.efresh x hdead
+          have h1z := handles_zero_of_dead i1'' x hdead
+          simp only [e1] at h0
+          have := hd.pend x
+          rcases hprot with hp | hp <;> omega
+        have hprot' : 1 ≤ handles vars x ∨ 1 + cellCnt ci x ≤ e1 x + cellCnt ci x := by
+          rcases hprot with hp | hp
+          · exact Or.inl hp
+          · refine Or.inr ?_
+            show 1 + cellCnt ci x ≤ e x - cellCnt c x + cellCnt (.ptr b) x + cellCnt ci x
+            omega
+        rw [st2.frame x hlive1' hprot']
+        show upd g1 b _ x = g x
+        rw [upd_other _ _ _ _ hxb]; exact a.frame x hxl
+      · rw [setPay_next]
+        have := st2.next_le; have h1n : h1'.next = h1.next := setPay_next _ _ _
+        have := a.next_le; omega
+      · rw [setPay_next]
+        have := st2.next_ge; have h1n : h1'.next = h1.next := setPay_next _ _ _
+        have := a.next_ge; simp only [List.length_cons]; omega
+      · rw [liveCount_setPay]
+        have := st2.live; have := a.live; simp only [List.length_cons]; omega
+
+end Nstd.Variant.Deep
